@@ -30,6 +30,7 @@ from harness.common import Ctx, Part, lean_batch, load_corpus, pmap
 
 THEOREMS = [
     "IrVerif.Scope.C03_roundtrip",
+    "IrVerif.Scope.C03_roundtrip_reloadable",
     "IrVerif.Scope.C03_twice",
     "IrVerif.Scope.C03_pure",
 ]
@@ -39,8 +40,8 @@ ASSUMPTIONS = [
     "graphs nest as a tree (a Graph object shared between two attributes is outside the model)",
     "the oracle's gate (serializable_reason) also admits a nested graph that shadows a name of an enclosing "
     "graph when every reference still resolves innermost-first to the referenced value; the hypothesis of "
-    "C03_roundtrip (names unique per scope chain) excludes shadowing, so those models are covered by the "
-    "model-vs-code comparison and the isomorphism oracle only",
+    "C03_roundtrip (names unique per scope chain) excludes shadowing, C03_roundtrip_reloadable (hypothesis: "
+    "the resolution certificate replG) covers it",
     "accepted normalisations of the round trip: '' == None for doc/model strings, trailing empty-named "
     "outputs, Node.version / meta / nested opset_imports / function graph names are IR-only, a "
     "non-input initializer without type/shape receives them from its tensor, a shape without a type "
